@@ -183,6 +183,7 @@ impl Matrix {
         let mut k1 = 1_u64; // u1 = 0, v1 = 1
         let mut even = true;
         if a1 < LIMIT {
+            verif_hit!(21);
             return Matrix::IDENTITY;
         }
 
@@ -196,8 +197,10 @@ impl Matrix {
 
             // Test i + 1 (odd)
             if a2 >= v2 && a1 - a2 >= u2 {
+                verif_hit!(22);
                 return Matrix(0, 1, u2, v2, false);
             } else {
+                verif_hit!(23);
                 return Matrix::IDENTITY;
             }
         }
@@ -260,13 +263,16 @@ impl Matrix {
                 // Test i + 2 (even)
                 if a3 >= u3 && a2 - a3 >= v3 + v2 {
                     // Correct value is i + 2
+                    verif_hit!(24);
                     Matrix(u2, v2, u3, v3, true)
                 } else {
                     // Correct value is i + 1
+                    verif_hit!(25);
                     Matrix(u1, v1, u2, v2, false)
                 }
             } else {
                 // Correct value is i
+                verif_hit!(26);
                 Matrix(u0, v0, u1, v1, true)
             }
         } else {
@@ -276,13 +282,16 @@ impl Matrix {
                 // Test i + 2 (odd)
                 if a3 >= v3 && a2 - a3 >= u3 + u2 {
                     // Correct value is i + 2
+                    verif_hit!(27);
                     Matrix(u2, v2, u3, v3, false)
                 } else {
                     // Correct value is i + 1
+                    verif_hit!(28);
                     Matrix(u1, v1, u2, v2, true)
                 }
             } else {
                 // Correct value is i
+                verif_hit!(29);
                 Matrix(u0, v0, u1, v1, false)
             }
         }
